@@ -556,7 +556,7 @@ pub fn case_json(case: &Case) -> Value {
 pub fn cmd(args: &Args) -> Report {
     let mut rep = Report::new("C06");
     let mut rng = Rng::new(args.stream_seed("c06"));
-    let cases = args.cases(4_000, 80_000);
+    let cases = args.cases(48_000, 640_000);
     for i in 0..cases {
         let known_shape = i % 10 == 9;
         let case = gen_case(&mut rng, known_shape);
